@@ -22,8 +22,10 @@ CONSTANTS Alphabet,   \* byte classes used by this configuration
           StrCap,     \* maximal number of bytes inside one string literal (excl. the opening quote)
           Prefix      \* fixed beginning of every generated string (e.g. `{"x":` puts the tail in a skipped position)
 
-VARIABLES s, m, ms, sc, v
-vars == <<s, m, ms, sc, v>>
+VARIABLES s, m, ms, sc, v,
+          gaps   \* positions (number of bytes before them) where blanks may be inserted without changing the token
+                 \* sequence: between tokens, or after a complete number that the next byte does not continue
+vars == <<s, m, ms, sc, v, gaps>>
 
 Verdict(a, b) ==
   IF a.st = "deep" \/ b.st = "deep" THEN "deep"
@@ -31,8 +33,11 @@ Verdict(a, b) ==
   ELSE IF ~AcceptsAtEnd(b) THEN "reject"
   ELSE "either"
 
+NumChars == {"d0", "d1", "dt", "le", "ue", "pl", "mi"}
+GapBefore(mach, c) == mach.st = "run" /\ (mach.lx = "" \/ (NumDone(mach.lx) /\ c \notin NumChars))
+
 Init == /\ s = Prefix /\ m = Run(Prefix, TRUE) /\ ms = RunFrom(Start, Prefix, 1, FALSE, FALSE) /\ sc = 0
-        /\ v = Verdict(m, ms)
+        /\ v = Verdict(m, ms) /\ gaps = {}
 
 Next ==
   /\ Len(s) < Len(Prefix) + MaxLen
@@ -44,6 +49,7 @@ Next ==
        /\ ms' = Delta(ms, c, FALSE, FALSE)
        /\ sc' = IF InStr(ms.lx) THEN sc + 1 ELSE 0
        /\ v'  = Verdict(m', ms')
+       /\ gaps' = IF GapBefore(ms, c) /\ GapBefore(m, c) THEN gaps \cup {Len(s)} ELSE gaps
 
 Spec == Init /\ [][Next]_vars
 
